@@ -278,6 +278,7 @@ class Scheduler:
         self.in_parse = 0          # number of threads currently inside a parse call (maintained by the workload)
         self.overlap_seen = False  # >= 2 threads inside a parse at the same time
         self.total_steps = 0
+        self.opcodes = 0
 
     # ------------------------------------------------------------ tracing
     def _kind(self, filename: str) -> int:
@@ -342,6 +343,41 @@ class Scheduler:
             if th.cd_all <= 0 or th.cd_hot <= 0:
                 self._decide(th, "hot" if th.cd_hot <= 0 else "all")
         return self._trace_hot
+
+    # ------------------------------------------------------------ opcode-level pre-emption points
+    def enable_opcodes(self, codes: List[Any], tool_id: int = 4) -> int:
+        """Besides line events, every bytecode instruction of the given code
+        objects becomes a step (an 'own' step) and hence a pre-emption point
+        (sys.monitoring INSTRUCTION events, Python >= 3.12).  -> number of
+        code objects instrumented (0 when unavailable)."""
+        mon = getattr(sys, "monitoring", None)
+        if mon is None:
+            return 0
+        try:
+            mon.use_tool_id(tool_id, "verif-sim")
+        except ValueError:
+            pass
+        mon.register_callback(tool_id, mon.events.INSTRUCTION, self._on_instruction)
+        n = 0
+        for c in codes:
+            try:
+                mon.set_local_events(tool_id, c, mon.events.INSTRUCTION)
+                n += 1
+            except Exception:
+                pass
+        self.opcodes = n
+        return n
+
+    def _on_instruction(self, code: Any, offset: int) -> None:
+        th = self.cur
+        if th is None or th.untraced:
+            return
+        th.own += 1
+        th.total += 1
+        th.cd_all -= 1
+        th.cd_own -= 1
+        if th.cd_all <= 0 or th.cd_own <= 0:
+            self._decide(th, "own" if th.cd_own <= 0 else "all")
 
     # ------------------------------------------------------------ switching
     def runnable(self) -> List[int]:
